@@ -808,7 +808,20 @@ def run_shard(spec):
         for j in range(5 if quick else 120):
             seq = Seq(mon, rng, j)
             mon.c["sequences"] += 1
-            seq.run(rng.choice([50, 80]) if quick else rng.choice([50, 150, 300]))
+            nviol = len(mon.viol)
+            try:
+                seq.run(rng.choice([50, 80]) if quick else rng.choice([50, 150, 300]))
+            except Exception:
+                # the harness cannot go on with this sequence.  When the sequence has ALREADY produced a violation (a pool
+                # holding a rule-breaking transaction makes the harness's own block assembly fail, for instance) that violation
+                # is the finding and the sequence ends here; otherwise the failure is the harness's and the shard is inconclusive
+                if len(mon.viol) == nviol:
+                    raise
+                mon.c["sequences_ended_after_a_violation"] = mon.c.get("sequences_ended_after_a_violation", 0) + 1
+                try:
+                    seq.sn.close()
+                except Exception:
+                    pass
             if len(mon.samples) < 1:
                 mon.samples.append({"ops": [(o[0], o[1] if o[0] == "submit" else "", o[2] if o[0] == "submit" else "")
                                             for o in seq.ops][:30]})
